@@ -287,6 +287,12 @@ class Interp:
                 r = self.call_method_ast(v, "__len__", [], {})
                 return self.truth(r)
             return z3.BoolVal(True)
+        if isinstance(v, VRec) and getattr(v.t, "dictlike", False):
+            # a dict value is truthy iff it has at least one key
+            keys = [k for k in v.fields if not k.startswith("has_")]
+            if any(("has_" + k) not in v.fields for k in keys):
+                return z3.BoolVal(True)
+            return z3.Or([v.fields["has_" + k].e for k in keys] + [z3.BoolVal(False)])
         if isinstance(v, (VFunc, VClass, VModule, VRec, VUn, VOpaque, VExc)):
             return z3.BoolVal(True)
         raise Unsupported("truth of %s" % type(v).__name__)
